@@ -42,5 +42,16 @@ Definition C08_liveness_statement (reader : bool -> (nat -> bool) -> bool -> lis
 Theorem C08_liveness_holds : C08_liveness_statement (run true).
 Proof. intros tolerant sink stream es es'. apply reader_terminates. Qed.
 
+(* liveness (supporting the second clause): the queues drain - after as many receives by its thread as there are
+   requests queued for it, a log file holds exactly the bytes its own client sent *)
+Definition C08_drain_statement (compressor : nat -> list cchoice -> cst) : Prop :=
+  forall T cs r, 0 < T ->
+    let k := thread_of T r in
+    file (compressor T (cs ++ repeat (CRecv k) (length (queue (compressor T cs) k)))) k (index_of T r) = sent_by r cs.
+
+Theorem C08_drain_holds : C08_drain_statement crun.
+Proof. intros T cs r HT. apply compressor_drains. exact HT. Qed.
+
 Print Assumptions C08_holds.
 Print Assumptions C08_liveness_holds.
+Print Assumptions C08_drain_holds.
